@@ -61,6 +61,10 @@ LEAFTYPES = [
     ("union", [("pytree", ("str",)), S("*?n")]),
     # the leaf check itself raises AnnotationError after '?n' was bound (state must not outlive the check)
     S("?n zz+1"),
+    # a symbolic axis that names the PLAIN axis 'n' next to the per-leaf axis '?n': the expression means the plain one
+    S("?n n+1"),
+    S("n ?n n+1"),
+    ("tuple", [S("?n"), S("n+1 ?n")]),
     # a '?' axis used after a structure-less inner PyTree within the same leaf
     ("tuple", [("pytree", S("?n")), S("?n 2")]),
     # a STRUCTURED PyTree as a sibling inside the leaf type: the '?' axis next to it lies inside exactly one
